@@ -131,7 +131,9 @@ class C01(Property):
         "emulsion is rendered with get_phasefield and located with locate_droplets (threshold 0.5, no refinement). Oracle: "
         "independent covered-cell set under the minimal-image metric -> count, volume (sum of cell volumes), per-axis half-cell "
         "bound on the centre, position inside the bounds on periodic axes. Non-trivial = >= 2 droplets, a droplet straddling a "
-        "periodic face, anisotropy >= 1.5, or a symmetric grid; distinct = distinct spec hash."
+        "periodic face, anisotropy >= 1.5, or a symmetric grid; distinct = distinct spec hash. Exhaustive companion ('corner-sweep'): one "
+        "droplet at every sub-cell offset (7 per axis) and radius (6) around the corner of fully / partly periodic 2-D and 3-D boxes with "
+        "unequal cell counts and spacings."
     )
     assumptions = [
         "knife-edge cases (a cell centre within 1e-9 R of the droplet surface) are skipped and counted",
@@ -144,6 +146,53 @@ class C01(Property):
 
     def strategy(self, tier):
         return st.one_of(cart_specs(tier), cart_specs(tier), cart_specs(tier), cart_specs(tier), cart_specs(tier), sym_specs(tier))
+
+    # Finite "corner sweep": one droplet near the corner of a fully (or partly) periodic box whose axes have different
+    # cell counts and spacings, for every sub-cell offset and radius of a small lattice.  Small droplets near a corner
+    # cover only some of the 2^d corner regions, which is where the bookkeeping of periodic images is most delicate.
+    CORNER_GRIDS = {
+        "quick": [
+            {"origin": [-1.5, 2.25], "shape": [5, 8], "spacing": [1.0, 0.75], "periodic": [True, True]},
+            {"origin": [0.3, -7.0], "shape": [7, 4], "spacing": [0.5, 1.25], "periodic": [True, True]},
+            {"origin": [2.0, -1.0, 0.5], "shape": [4, 5, 6], "spacing": [1.0, 0.8, 1.3], "periodic": [True, True, True]},
+        ],
+        "thorough": [
+            {"origin": [-1.5, 2.25], "shape": [5, 8], "spacing": [1.0, 0.75], "periodic": [True, True]},
+            {"origin": [0.3, -7.0], "shape": [7, 4], "spacing": [0.5, 1.25], "periodic": [True, True]},
+            {"origin": [0.0, 0.0], "shape": [12, 40], "spacing": [1.0, 1.0], "periodic": [True, True]},
+            {"origin": [2.0, -1.0, 0.5], "shape": [4, 5, 6], "spacing": [1.0, 0.8, 1.3], "periodic": [True, True, True]},
+            {"origin": [0.0, 3.0, -2.0], "shape": [7, 5, 4], "spacing": [0.6, 1.0, 1.5], "periodic": [True, True, True]},
+            {"origin": [0.0, 3.0, -2.0], "shape": [6, 9, 5], "spacing": [1.0, 1.0, 1.0], "periodic": [True, False, True]},
+            {"origin": [1.0, 1.0, 1.0], "shape": [9, 4, 6], "spacing": [0.9, 1.1, 1.0], "periodic": [False, True, True]},
+        ],
+    }
+    CORNER_OFFSETS = [-1.1, -0.6, -0.3, 0.0, 0.2, 0.45, 0.9]
+    CORNER_RADII = [0.55, 0.75, 0.95, 1.2, 1.45, 1.8]
+
+    def exhaustive_jobs(self, tier):
+        return [{"domain": "corner-sweep", "grid": g, "radius_factor": rf} for g in self.CORNER_GRIDS[tier] for rf in self.CORNER_RADII]
+
+    def expand(self, job):
+        import itertools
+
+        g = job["grid"]
+        geom = O.CartGeom(g["origin"], g["shape"], g["spacing"], g["periodic"])
+        R = job["radius_factor"] * float(geom.dx.max())
+        choices = []
+        for a in range(geom.dim):
+            if geom.periodic[a]:
+                if 2 * R > geom.L[a] - 2 * geom.dx[a]:
+                    return
+                choices.append([geom.origin[a] + o * geom.dx[a] for o in self.CORNER_OFFSETS])
+            else:  # non-periodic axis: a few positions well inside the box
+                lo, hi = geom.origin[a] + R, geom.origin[a] + geom.L[a] - R
+                if lo > hi:
+                    return
+                choices.append([lo, 0.5 * (lo + hi) + 0.3 * geom.dx[a], hi])
+        for pos in itertools.product(*choices):
+            pos = [float(x) for x in pos]
+            if np.any(geom.dist_to(pos) < R):
+                yield {"family": "cart", "grid": g, "droplets": [{"position": pos, "radius": float(R)}], "sweep": "corner"}
 
     def check(self, spec, ctx: Ctx):
         fam = spec["family"]
